@@ -3,7 +3,12 @@ from checklib.registry import generic, COMMON_NOTE
 
 def CHECK(work, res, tier):
     # the `conc` ops run one shared copier from 8 goroutines; in the thorough tier the harness is built with -race
-    return generic("C20", [dict(harness="copier", area="copier", race=(tier == "thorough"))])(work, res, tier)
+    # second trace (family heldconc): goroutines that share one copier AND option values held by the caller. It is a run of
+    # its own because a data race on a shared option value can end the process (fatal "concurrent map writes"), which must
+    # not take the sequential histories of the first trace with it: those are judged first, call by call.
+    return generic("C20", [dict(harness="copier", area="copier", race=(tier == "thorough")),
+                           dict(harness="copier", area="copier", name="copier-heldconc", gen_args=["-family", "heldconc"],
+                                race=(tier == "thorough"))])(work, res, tier)
 
 
 MANIFEST = dict(
